@@ -522,9 +522,12 @@ class Interp:
         if isinstance(t, ast.Name):
             env.set(t.id, v)
         elif isinstance(t, (ast.Tuple, ast.List)):
-            items = self.iterate(v, t)
             if any(isinstance(e, ast.Starred) for e in t.elts):
                 raise CheckerError('starred assignment unsupported')
+            if hasattr(v, 'unpack'):
+                items = v.unpack(self, len(t.elts), t)
+            else:
+                items = self.iterate(v, t)
             if len(items) != len(t.elts):
                 raise PyRaise('ValueError', 'unpack', t)
             for e, x in zip(t.elts, items):
